@@ -47,6 +47,7 @@ const DefaultRecvQueueSize = 55
 type Protocol struct {
 	config              ProtocolConfig
 	doneChan            chan struct{}
+	shutdownChan        chan struct{}
 	stopChan            chan struct{}
 	muxerSendChan       chan *muxer.Segment
 	muxerRecvChan       chan *muxer.Segment
@@ -143,6 +144,7 @@ func New(config ProtocolConfig) *Protocol {
 		config:       config,
 		currentState: config.InitialState,
 		doneChan:     make(chan struct{}),
+		shutdownChan: make(chan struct{}),
 		stopChan:     make(chan struct{}),
 		recvDoneChan: make(chan struct{}),
 		sendDoneChan: make(chan struct{}),
@@ -178,6 +180,7 @@ func (p *Protocol) Start() {
 			close(p.recvDoneChan)
 			close(p.sendDoneChan)
 			close(p.doneChan)
+			close(p.shutdownChan)
 			return
 		}
 
@@ -195,6 +198,15 @@ func (p *Protocol) Start() {
 			<-p.recvDoneChan
 			<-p.sendDoneChan
 			close(p.doneChan)
+		}()
+
+		go func() {
+			select {
+			case <-p.stopChan:
+			case <-p.muxerDoneChan:
+			case <-p.doneChan:
+			}
+			close(p.shutdownChan)
 		}()
 
 		go p.stateLoop(stateTransitionChan)
@@ -242,6 +254,16 @@ func (p *Protocol) Role() ProtocolRole {
 // DoneChan returns the channel used to signal protocol shutdown
 func (p *Protocol) DoneChan() <-chan struct{} {
 	return p.doneChan
+}
+
+// ShutdownChan returns a channel that is closed as soon as the protocol begins
+// to shut down: Stop was called (by the application or after an error) or the
+// connection's muxer has stopped. Unlike DoneChan it does not wait for the
+// protocol's loops to end - and so not for a message handler that is still
+// running - which makes it the signal to wait on from inside a handler or an
+// application callback
+func (p *Protocol) ShutdownChan() <-chan struct{} {
+	return p.shutdownChan
 }
 
 // IsDone returns true if the protocol has finished (done channel is closed or in AgencyNone state).
